@@ -46,6 +46,9 @@ def api_table(variant, pmax, fmax, rnd):
     return t
 
 
+MD_ORDERS = ["asc", "asc", "desc", "rot"]  # order in which a metadata reply lists a topic's partitions
+
+
 def config_strategy(max_brokers=4):
     @st.composite
     def cfg(draw):
@@ -68,6 +71,7 @@ def config_strategy(max_brokers=4):
             "fmax": draw(st.sampled_from([2, 2, 4, 11])),
             "bootstrap": draw(st.lists(st.integers(0, nb + 1), min_size=1, max_size=3, unique=True)),
             "rseed": draw(st.integers(0, 999)),
+            "md_order": draw(st.sampled_from(MD_ORDERS)),
         }
 
     return cfg()
@@ -90,6 +94,7 @@ def build(config):
     elif d == "error":
         av = ("error", 35)
     cl = simkafka.Cluster(w, nbrokers=config["brokers"], api_versions=av)
+    cl.md_order = config.get("md_order", "asc")
     for t in config["topics"]:
         cl.add_topic(t["name"], len(t["leaders"]), leaders=t["leaders"], magic=t["magic"])
     hosts = []
@@ -164,6 +169,8 @@ class CLEngine(Engine):
         self.pending_at_close = []
         self.bootstrap_at_close = False
         self.stale = {}  # topic -> evseq since when routing is known stale
+        self.coord_stale = {}  # group -> evseq since when the cached coordinator is known stale (a send to it failed)
+        self.fc_scan_from = 0
         self.witnessed = None  # brokers of the last metadata reply consumed by a successful load call
         self.witnessed_seq = 0
         self.witnessed_topic = {}
@@ -818,6 +825,13 @@ class CLEngine(Engine):
                 i["delivered_evseq"] = self.evseq
                 for _, t, _ in i["metadata"][1]:
                     self.stale.pop(t, None)
+        reps = self.cluster.replies
+        for r in reps[self.fc_scan_from:]:
+            if r["api"] == "find_coordinator" and "fc_delivered_evseq" not in r and self.cluster.delivered(r):
+                r["fc_delivered_evseq"] = self.evseq
+                self.coord_stale.pop(r.get("group"), None)
+        while self.fc_scan_from < len(reps) and (reps[self.fc_scan_from]["api"] != "find_coordinator" or "fc_delivered_evseq" in reps[self.fc_scan_from]):
+            self.fc_scan_from += 1
         while self.md_scan_from < len(self.cluster.metadata_replies) and (
                 "delivered_evseq" in self.cluster.metadata_replies[self.md_scan_from] or self.cluster.metadata_replies[self.md_scan_from].get("lost")):
             self.md_scan_from += 1
@@ -1051,8 +1065,19 @@ class CLEngine(Engine):
         if fail.check(C.RequestTimedOutError) and not broker_said_7 and c.deadline is not None and c.watch.fired[0][1] < c.deadline - 1e-9:
             self.note("C11.bounded", "C11.timed-out-early/%s" % c.kind, "call #%d (%s) issued t=%.3f with timeout %.2fs failed as timed out already at t=%.3f" % (c.no, c.kind, c.time, c.timeout, c.watch.fired[0][1]))
         if fail.check(C.FailedPayloadsError):
-            for t in set(k[0] for k in c.keys):
-                self.stale.setdefault(t, self.evseq)
+            # the routing a failed send used is invalid from now on: the leaders of the failed payloads' topics, or - for the requests that
+            # go to a group's coordinator - that coordinator
+            if c.kind in ("ofetch", "ocommit"):
+                if c.group is not None:
+                    self.coord_stale.setdefault(c.group, self.evseq)
+                    self.labels.add("send-to-coordinator-failed")
+            else:
+                try:
+                    failed_topics = set(p.topic for p, _ in fail.value.failed_payloads)
+                except Exception:  # noqa
+                    failed_topics = set(k[0] for k in c.keys)
+                for t in failed_topics:
+                    self.stale.setdefault(t, self.evseq)
 
     def _check_one_request_per_broker(self, c):
         if c.watch.state == "err":
@@ -1134,8 +1159,13 @@ class CLEngine(Engine):
                     nxt = hist[i + 1][0] if i + 1 < len(hist) else 10 ** 9
                     if nxt >= since and seq <= x["evseq"]:
                         ok.add(node)
+                if api != "heartbeat" and call is not None and self.coord_stale.get(g) is not None and call.evseq0 > self.coord_stale[g]:
+                    self.note("C08.reresolve-after-stale", "C08.request-on-stale-routing/%s" % api, "%s of call #%s (started at event %s) for group %r written although a send to its coordinator had failed at event %s and the coordinator was not looked up since" % (api, x["call"], since, g, self.coord_stale[g]))
+                    self.coord_stale[g] = None
                 if x["node"] not in ok:
                     self.note("C07.routed-to-coordinator", "C07.routed-to-coordinator/%s" % api, "%s for group %r written to node %r; coordinator known to the client: %r" % (api, g, x["node"], sorted(ok, key=repr)))
+            elif api == "find_coordinator":
+                self.coord_stale.pop(x["req"]["group"], None)
             elif api == "metadata":
                 topics = x["req"]["topics"]
                 for t in list(self.stale):
